@@ -459,6 +459,37 @@ def run(ck):
           "pending (it is not awaited: stop_data would not be processed last / the run is "
           "abandoned)", cs, mks[0].ast if mks else cs.node, witness=path_witness(gst, wit))
 
+    # the drain of cancel mode runs until the queue IS empty (or the sentinel was met): an item put
+    # back synchronously by an on_cancel recipient during the drain is picked up as well; a size
+    # snapshot (`for _ in range(queue.qsize())`) leaves it behind, and the next loop turn cancels
+    # a task that has not started yet
+    from sa.cfg import canon_fact as _cf, decompose as _dc
+    qal_ = {'self._queue'} | {norm(n.ast.targets[0]) for n in gc.nodes if n.kind == 'stmt' and
+                               isinstance(n.ast, ast.Assign) and norm(n.ast.value) == 'self._queue'}
+    wants_ = set()
+    for q_ in qal_:
+        wants_.add(_cf(ast.parse(f'{q_}.empty()', mode='eval').body, True))
+        wants_.add(_cf(ast.parse(f'{q_}.qsize() == 0', mode='eval').body, True))
+        wants_.add(_cf(ast.parse(f'{q_}.qsize() > 0', mode='eval').body, False))
+        wants_.add(_cf(ast.parse(f'{q_}.qsize()', mode='eval').body, False))
+    emptyq = [n for n in gc.nodes if n.kind == 'branch' and any(
+        _cf(e_, p_) in wants_ for e_, p_ in _dc(n.test.ast, n.polarity))]
+    sentinel_ = [n for n in gc.nodes if n.kind == 'branch' and n.polarity and
+                 norm(n.test.ast).endswith(' is None') and 'task' not in norm(n.test.ast)]
+    witd = None
+    if mk and deq:
+        for d_ in deq:
+            witd = witd or gc.path_avoiding(d_, mk, avoid=emptyq + sentinel_, start_successors_only=True)
+    ck.ob(R5, f"{cc.fid} :: drained until empty before the run starts", bool(mk) and bool(emptyq) and witd is None,
+          "between the dequeue and the task creation the queue was seen empty (or the stop "
+          "sentinel was met) on every path" if mk and emptyq and witd is None else
+          "a run can be started while items are still queued (the drain is bounded by a size "
+          "snapshot or skipped): an event put back during the drain is left behind, the next turn "
+          "cancels the not yet started task and the control task dies on the CancelledError", cc,
+          mk[0].ast if mk else cc.node, witness=path_witness(gc, witd))
+    from rules.shared import stop_data_condition
+    stop_data_condition(ck, R6)
+
     # ------------------------------------------------------------------ R12.6
     gi = ck.cfg(ini.fid, 'M0')
     mp = {}
